@@ -24,6 +24,8 @@ def setup(repo_dir):
     if "repo" not in _G:
         _G["repo"] = Repo(repo_dir)
         reg = Registry()
+        reg.repo_dir = repo_dir
+        reg.repo = _G["repo"]
         load_sidecars(reg, os.path.join(ROOT, "contracts"))
         _G["reg"] = reg
     return _G["repo"], _G["reg"]
@@ -31,13 +33,14 @@ def setup(repo_dir):
 
 def run_unit(job):
     """Worker: verify one unit and solve its obligations. Returns a picklable dict."""
-    kind, name, repo_dir, timeout_ms, known = job
+    kind, name, repo_dir, timeout_ms, known = job[:5]
+    inst = job[5] if len(job) > 5 else None
     t0 = time.time()
     try:
         repo, reg = setup(repo_dir)
         if kind == "unit":
-            res = vcgen.verify_unit(repo, reg, name, timeout_ms)
-            out = dict(kind=kind, name=name, status=res.status, message=res.message, paths=res.paths,
+            res = vcgen.verify_unit(repo, reg, name, timeout_ms, inst)
+            out = dict(kind=kind, name=res.unit, status=res.status, message=res.message, paths=res.paths,
                        inlined=res.inlined, node_kinds=res.node_kinds, vacuity=res.vacuity, src=res.src,
                        obligations=[], gen_time=res.time)
             axioms = res.ex.global_axioms if hasattr(res, "ex") else []
@@ -110,7 +113,11 @@ def jobs_for(reg, prop, unit_filter=None):
             continue
         if unit_filter and unit_filter not in qn:
             continue
-        jobs.append(("unit", qn))
+        if c.instances:
+            for k in range(len(c.instances)):
+                jobs.append(("unit", qn, k))
+        else:
+            jobs.append(("unit", qn))
     for n, props, f in reg.lemmas:
         if (prop == "all" or prop in props) and (not unit_filter or unit_filter in n):
             jobs.append(("lemma", n))
@@ -123,10 +130,12 @@ def main():
     ap.add_argument("--tier", default=os.environ.get("VERIF_TIER", "quick"))
     ap.add_argument("--repo", default="/repo")
     ap.add_argument("--unit", default=None)
+    ap.add_argument("--instance", type=int, default=None)
     ap.add_argument("--replay", default=None)
     ap.add_argument("--jobs", type=int, default=16)
     ap.add_argument("-v", action="store_true")
     args = ap.parse_args()
+    os.environ["PYVC_TIER"] = args.tier
     from pyvc import report
     sys.exit(report.run(args))
 
